@@ -20,7 +20,13 @@
 //   * core::result::unwrap_failed                 (message of Result::unwrap/expect inside std::fmt)
 //   * <core::num::TryFromIntError as Debug>::fmt  (argument of such a message)
 //   * core::str::slice_error_fail                 (message of a failed str slice / split_at)
-// Without them the `{:?}` formatting code for those messages becomes a candidate of every formatting
+// and
+//   * alloc::fmt::format -> the same body with `String::with_capacity(64)` instead of
+//     `String::with_capacity(args.estimated_capacity())`: the capacity of a String is not observable, the
+//     real `String::write_fmt` / `core::fmt::write` / `Display for i32/u32` run unchanged.  (With the real
+//     capacity computation the result length is symbolic for CBMC: 2.3 M variables and 97 s for the
+//     constant StackOffset(0), against 0.1 M variables and 3 s with the fixed capacity.)
+// Without the first three the `{:?}` formatting code for those messages becomes a candidate of every formatting
 // fn-pointer call and drags `PadAdapter::write_str` (recursive through `dyn Write`) into the model; CBMC
 // then unwinds that recursion forever, even for constant inputs.
 #[cfg(kani)]
@@ -155,13 +161,25 @@ mod verif_kani_memloc {
         panic!("str slice index out of range or not on a char boundary")
     }
 
-    /// `h!(name, unwind, { body })`: a proof harness with the three panic-message stubs
+    /// `alloc::fmt::format` with a fixed initial capacity instead of `Arguments::estimated_capacity()`;
+    /// the rest is the body of the real function (real `write_fmt`)
+    fn format_cap64(args: core::fmt::Arguments<'_>) -> String {
+        use core::fmt::Write;
+        let mut out = String::with_capacity(64);
+        match out.write_fmt(args) {
+            Ok(()) => out,
+            Err(_) => panic!("a formatting trait implementation returned an error"),
+        }
+    }
+
+    /// `h!(name, unwind, { body })`: a proof harness with the four std stubs described in the file header
     macro_rules! h {
         ($(#[$doc:meta])* $name:ident, $unwind:literal, $body:block) => {
             $(#[$doc])*
             #[kani::proof]
             #[kani::unwind($unwind)]
             #[kani::stub(core::result::unwrap_failed, unwrap_failed_plain)]
+            #[kani::stub(alloc::fmt::format, format_cap64)]
             #[kani::stub(core::str::slice_error_fail, slice_error_fail_plain)]
             #[kani::stub(<core::num::TryFromIntError as core::fmt::Debug>::fmt, no_debug_try_from_int)]
             fn $name() $body
@@ -172,78 +190,47 @@ mod verif_kani_memloc {
     fn csr(c: u32) -> MemoryLocation { MemoryLocation::CsrRegister(CsrImm::new(c)) }
     fn csro(c: u32, i: i32) -> MemoryLocation { MemoryLocation::CsrRegisterValueOffset(CsrImm::new(c), i) }
 
-    // ------------------------------------------------------------------ StackOffset
-    h!(
-    /// bounded: offset symbolic in -9..=9
-    so_small, 8, {
-        let i: i32 = kani::any();
-        kani::assume(i >= -9 && i <= 9);
-        kani::cover!(i < 0, "negative stack offset");
-        kani::cover!(i == 0, "zero stack offset");
-        kani::cover!(i > 0, "positive stack offset");
-        roundtrip(so(i));
-    });
+    // Every harness below runs the round trip on ONE concrete value ("bounded: exactly this value").
+    // Measured limits of CBMC 6.11 on this code (all with the stubs above):
+    //   * symbolic payload, StackOffset(i) with i in -9..=9: no verdict after 25 min; CsrRegister(c) with
+    //     c in 0..=9: out of memory (> 12 GB) after ~20 min -- with a symbolic integer the digit count,
+    //     hence every length and offset inside `fmt::write`/`String`, is symbolic;
+    //   * ten concrete values enumerated by a loop inside one harness: no verdict after 15 min
+    //     (one value: 10-25 s), so each value gets its own harness and the driver runs them in parallel.
+    macro_rules! pt { ($($name:ident = $m:expr;)*) => { $( h!($name, 24, { roundtrip($m); }); )* } }
 
-    h!(
-    /// bounded: offset symbolic in -128..=127 (two and three digit numbers, both signs)
-    so_byte, 10, {
-        let i: i8 = kani::any();
-        kani::cover!(i <= -100, "three digits, negative");
-        kani::cover!(i >= 100, "three digits, positive");
-        kani::cover!(i > -100 && i <= -10, "two digits, negative");
-        roundtrip(so(i as i32));
-    });
-
-    // boundary values, concrete (bound = exactly this value)
-    h!(so_min, 24, { roundtrip(so(i32::MIN)); });
-    h!(so_min_plus_1, 24, { roundtrip(so(i32::MIN + 1)); });
-    h!(so_minus_1, 24, { roundtrip(so(-1)); });
-    h!(so_zero, 24, { roundtrip(so(0)); });
-    h!(so_max, 24, { roundtrip(so(i32::MAX)); });
-
-    // ------------------------------------------------------------------ CsrRegister
-    h!(
-    /// bounded: csr symbolic in 0..=9
-    csr_small, 8, {
-        let c: u32 = kani::any();
-        kani::assume(c <= 9);
-        kani::cover!(c == 0, "csr 0");
-        kani::cover!(c == 9, "csr 9");
-        roundtrip(csr(c));
-    });
-
-    h!(
-    /// bounded: csr symbolic in 0..=255
-    csr_byte, 10, {
-        let c: u8 = kani::any();
-        kani::cover!(c >= 100, "three digits");
-        kani::cover!(c >= 10 && c < 100, "two digits");
-        roundtrip(csr(c as u32));
-    });
-
-    h!(csr_zero, 24, { roundtrip(csr(0)); });
-    // 0xFFF is the largest architectural CSR number
-    h!(csr_4095, 24, { roundtrip(csr(4095)); });
-    h!(csr_max, 24, { roundtrip(csr(u32::MAX)); });
-
-    // ------------------------------------------------------------------ CsrRegisterValueOffset
-    h!(
-    /// bounded: csr symbolic in 0..=9, offset symbolic in -9..=9
-    csro_small, 8, {
-        let c: u32 = kani::any();
-        let i: i32 = kani::any();
-        kani::assume(c <= 9);
-        kani::assume(i >= -9 && i <= 9);
-        kani::cover!(i < 0 && c > 0, "negative offset");
-        kani::cover!(i > 0 && c > 0, "positive offset");
-        kani::cover!(i == 0 && c == 0, "all zero");
-        roundtrip(csro(c, i));
-    });
-
-    h!(csro_zero_min, 24, { roundtrip(csro(0, i32::MIN)); });
-    h!(csro_max_min, 24, { roundtrip(csro(u32::MAX, i32::MIN)); });
-    h!(csro_max_max, 24, { roundtrip(csro(u32::MAX, i32::MAX)); });
-    h!(csro_4095_minus_1, 24, { roundtrip(csro(4095, -1)); });
-    // csr and offset must not be swapped: distinct one-digit payloads
-    h!(csro_7_3, 24, { roundtrip(csro(7, 3)); });
+    pt! {
+        // ---------------------------------------------------------------- StackOffset
+        so_min = so(i32::MIN);                 // "so-2147483648": |i32::MIN| does not fit an i32
+        so_min_plus_1 = so(i32::MIN + 1);
+        so_m1000000000 = so(-1_000_000_000);   // ten digits, negative
+        so_m10 = so(-10);
+        so_m9 = so(-9);
+        so_m1 = so(-1);
+        so_zero = so(0);
+        so_p1 = so(1);
+        so_p9 = so(9);
+        so_p10 = so(10);
+        so_p99 = so(99);
+        so_p100 = so(100);
+        so_p9999 = so(9_999);                  // std formats four digits per loop iteration
+        so_p10000 = so(10_000);
+        so_max = so(i32::MAX);
+        // ---------------------------------------------------------------- CsrRegister
+        csr_zero = csr(0);
+        csr_9 = csr(9);
+        csr_10 = csr(10);
+        csr_4095 = csr(4095);                  // 0xFFF, the largest architectural CSR number
+        csr_10000 = csr(10_000);
+        csr_max = csr(u32::MAX);
+        // ---------------------------------------------------------------- CsrRegisterValueOffset
+        csro_0_0 = csro(0, 0);
+        csro_7_3 = csro(7, 3);                 // distinct one-digit payloads: a swap of the fields is caught
+        csro_3_m7 = csro(3, -7);
+        csro_10_m10 = csro(10, -10);
+        csro_4095_m1 = csro(4095, -1);
+        csro_0_min = csro(0, i32::MIN);
+        csro_max_min = csro(u32::MAX, i32::MIN);
+        csro_max_max = csro(u32::MAX, i32::MAX);
+    }
 }
